@@ -192,3 +192,37 @@ contract("monkeytype.stubs:FunctionKind.from_callable", props=["C12"], theories=
                                    " and not (DJANGO_CP is not None and okind(%s) is OK_cached_property), result is FunctionKind.INSTANCE)" % (_DESC, _DESC, _DESC, _DESC)},
          raises={"NameLookupError": "not resolvable(func.__module__, func.__qualname__)"},
          note="inspect.getattr_static is modelled like getattr on the lookup environment (no descriptor protocol): assumed")
+
+# ---------------------------------------------------------------- C01: the composition lemma, per position, as a machine-checked object
+# values observed at one position over any number of calls -> per-value inference (tracer) -> merge (shrink_traced_types) -> rewriter (get_updated_definition)
+contract("lemma:c01_position", props=["C01"], theories=TH,
+         lemma=("monkeytype.stubs", "def lemma_c01_position(values, k, rewriter):\n"
+                                    "    types = [get_type(v, k) for v in values]\n"
+                                    "    merged = shrink_types(types, k)\n"
+                                    "    return rewriter.rewrite(merged)\n",
+                {"get_type": "monkeytype.typing:get_type"}),
+         params={"values": "Seq[Val]", "k": "Opt[int]", "rewriter": "Rewriter"}, result="Ty", pure=False,
+         requires={"values-wf": "forall(values, lambda v: wf_val(v))", "k-int": "k is not None", "rewriter": "rewriter is not None"},
+         assumes={"no-class-named-like-a-handler": "forall_v(lambda c: implies(is_class(c) and kind(c) is K_Class, not is_dispatch_name(cname(c))))"},
+         # C01 (type level): whatever the number of calls, the size limit and the rewriter, the type handed to stub generation admits every observed value
+         ensures={"post:admits-every-observed-value": "forall(values, lambda v: mem(v, result))", "post:wf": "wf_rw(result)"},
+         note="composition of the proved stage contracts of get_type (C04), shrink_types (C04) and the rewriter's widening (C07); the store round trip is the second lemma; "
+              "the last stage - the rendered text denotes this type - is bounded (C11)")
+
+contract("lemma:c01_position_through_store", props=["C01"], theories=TH + ["enc", "cli", "path"],
+         lemma=("monkeytype.stubs", "def lemma_c01_position_through_store(values, k, rewriter):\n"
+                                    "    types = [get_type(v, k) for v in values]\n"
+                                    "    stored = [type_from_json(type_to_json(t)) for t in types]\n"
+                                    "    merged = shrink_types(stored, k)\n"
+                                    "    return rewriter.rewrite(merged)\n",
+                {"get_type": "monkeytype.typing:get_type", "type_to_json": "monkeytype.encoding:type_to_json", "type_from_json": "monkeytype.encoding:type_from_json"}),
+         params={"values": "Seq[Val]", "k": "Opt[int]", "rewriter": "Rewriter"}, result="Ty", pure=False,
+         requires={"values-wf": "forall(values, lambda v: wf_val(v))", "k-int": "k is not None", "rewriter": "rewriter is not None",
+                   # hypotheses of the statement: the observed values are instances of importable classes ...
+                   "importable": "forall(values, lambda v: importable(get_type(v, k)))",
+                   # ... and (not proved at L1, checked by the bounded tier of C08 on every inferred type) inferred types are within the encoder's structural domain
+                   "inferred-types-encodable": "forall(values, lambda v: wf_st(get_type(v, k)))"},
+         assumes={"no-class-named-like-a-handler": "forall_v(lambda c: implies(is_class(c) and kind(c) is K_Class, not is_dispatch_name(cname(c))))"},
+         # C01 (type level, through the trace store): infer per call, encode, decode, merge, rewrite - the result admits every observed value, and nothing on the way raises
+         ensures={"post:admits-every-observed-value": "forall(values, lambda v: mem(v, result))"},
+         note="uses the assumed axioms mem-respects-teq / wf-respects-teq (structural equality preserves membership and well-formedness: theorems by induction, not proved here)")
